@@ -1417,8 +1417,21 @@ def scan_body_sites(F, fn, body, adt_lids, sites):
                     sites.append(('construct', k['fn']['ctor']['lid'], fn['lid'], bi, s['sp']))
 
 
-def check_ctor_sites(rep, F, gens):
-    """R-CTOR: who may construct / mutate a newtype, over every body of the crate"""
+def enclosing_method(fn):
+    """name of the method a body belongs to (closures and nested fns report their outermost method)"""
+    path = fn['path']
+    path = re.sub(r'::\{closure#\d+\}', '', path)
+    m = re.search(r'>::([A-Za-z_][A-Za-z0-9_]*)(::.*)?$', path)
+    if m:
+        return m.group(1)
+    parts = [x for x in path.split('::') if x]
+    return parts[-1] if parts else ''
+
+
+def check_ctor_sites(rep, F, gens, methods=None, only=None):
+    """R-CTOR: who may construct / mutate a newtype, over every body of the crate.
+    methods: restrict the reported sites to bodies belonging to these methods (a property about `from_str` is not
+    violated by a construction inside `default`); only: predicate selecting the declarations the property is about"""
     by_adt = {g.adt['lid']: g for g in gens if g.adt is not None}
     adt_lids = set(by_adt)
     sites = []
@@ -1440,6 +1453,10 @@ def check_ctor_sites(rep, F, gens):
                 rep.ob('R-CTOR', False, g or gens[0], f'generated fn `{fn["path"]}` calls unsafe generated fn `{callee["path"]}`', {'span': sp})
             continue
         g = by_adt[adt]
+        if only is not None and not only(g):
+            continue
+        if methods is not None and enclosing_method(fn) not in methods and fn.get('name') not in methods:
+            continue
         name = fn.get('name')
         ctor = g.ctor()
         allowed = None
